@@ -185,6 +185,7 @@ func cmdRun(args []string) {
 	tier := fs.String("tier", "quick", "tier")
 	out := fs.String("out", "", "output file")
 	maxFound := fs.Int("max-found", 12, "distinct violation classes to keep")
+	recheckAll := fs.Bool("recheck-all", false, "re-execute every world in replay mode and compare digests")
 	fs.Parse(args)
 	sc := h.Scenarios[*prop]
 	if sc == nil {
@@ -237,7 +238,7 @@ func cmdRun(args []string) {
 		if ro.V != nil {
 			cls = ro.V.Class
 		}
-		runDigest = h.Mix(runDigest, fnvStr(fmt.Sprintf("%d|%s|%s", idx, ro.Digest, cls)))
+		runDigest = h.Mix(runDigest, fnvStr(fmt.Sprintf("%d|%s|%s", idx, w.Digest, cls)))
 		o.Ops += ro.X.Ops
 		o.Steps += ro.X.Steps
 		for k, v := range ro.X.Faults {
@@ -260,7 +261,7 @@ func cmdRun(args []string) {
 			o.Samples = append(o.Samples, w)
 		}
 		// determinism self-check on a sample of worlds: same decisions => same event log
-		if k%50 == 7 && rlog == "" {
+		if (k%50 == 7 || *recheckAll) && rlog == "" && w.Params["volatile"] != 1 {
 			w2 := *w
 			r2 := h.RunWorld(sc, &w2, true, false)
 			o.DetChecked++
@@ -323,6 +324,21 @@ func cmdReplay(args []string) {
 	if sc == nil {
 		die(2, "unknown property %q", w.Prop)
 	}
+	if w.Sequence != nil {
+		cls, detail, at := runSequence(sc, w.Prop, w.Sequence, w.Class)
+		fmt.Printf("replay property=%s sequence of %d worlds: class=%q at world %d\n", w.Prop, len(w.Sequence.Indices), cls, at)
+		if detail != "" {
+			fmt.Printf("detail: %s\n", detail)
+		}
+		if cls != w.Class {
+			fmt.Printf("MISMATCH: file says class=%q\n", w.Class)
+			os.Exit(3)
+		}
+		if cls != "" {
+			fmt.Printf("REPRODUCED property=%s class=%q\n", w.Prop, cls)
+		}
+		return
+	}
 	wantClass, wantDigest := w.Class, w.Digest
 	rlog := raceLogPath()
 	rsize := fileSize(rlog)
@@ -358,6 +374,40 @@ func cmdReplay(args []string) {
 	if got != "" {
 		fmt.Printf("REPRODUCED property=%s class=%q\n", w.Prop, got)
 	}
+}
+
+// runSequence executes the listed world indices in order in this process and
+// returns the first violation (class, detail, index).
+func runSequence(sc *h.Scenario, prop string, sq *h.SeqSpec, want string) (string, string, int) {
+	for _, idx := range sq.Indices {
+		ws := h.Mix(sq.Seed, uint64(idx))
+		var w *h.World
+		if sc.GenIdx != nil {
+			w = sc.GenIdx(sq.Seed, idx, sq.Tier)
+		} else {
+			w = sc.Gen(h.NewRng(ws), sq.Tier)
+		}
+		if w.Params["skip"] == 1 {
+			continue
+		}
+		w.Seed, w.Idx, w.Prop = ws, idx, prop
+		ro := h.RunWorld(sc, w, false, false)
+		if ro.Harness != "" {
+			die(2, "%s", ro.Harness)
+		}
+		if ro.V != nil && (want == "" || ro.V.Class == want) {
+			return ro.V.Class, ro.V.Detail, idx
+		}
+		// (a violation of another class is what the worker saw there too; it went on, so does the replay)
+		// the worker re-executed every 50th of its worlds (determinism self-check); that execution also
+		// touches whatever process-wide state the library keeps, so the replay repeats it
+		if st := sq.Stride; st > 0 && ((idx-idx%st)/st)%50 == 7 && w.Params["volatile"] != 1 {
+			h.Finalize(w, ro)
+			w2 := *w
+			h.RunWorld(sc, &w2, true, false)
+		}
+	}
+	return "", "", -1
 }
 
 func cmdShrink(args []string) {
